@@ -1,4 +1,48 @@
-(* C17 — theorems in progress; this file is replaced as they are proved *)
-From AB Require Import Check.WorldCheck.
-Theorem c17_placeholder : True. Proof. exact I. Qed.
-Print Assumptions c17_placeholder.
+(* C17 — storage shape of the secret-writing paths (partial: the "substring of real bytes" half
+   and the log stream are decided by the harness's scan). *)
+From AB Require Import World.Step Proofs.MonadInv Proofs.StoreLogic Proofs.OneTimeProofs Proofs.TokenProofs.
+
+(* a recovery that changes storage stores pwhash(new password) — never the password — and
+   clears selector and verifier *)
+Theorem c17_recover_stores_hash : forall (E : env) h r h',
+  recover_end_post E h = (r, h') -> s_users (h_st h') <> s_users (h_st h) ->
+  exists raw u su,
+    b64url_dec (aget f_token (values E)) = Some raw /\ length raw = 64%nat /\
+    ufind (fun u => beqb (u_rsel u) (selector_of E raw)) (s_users (h_st h)) = Some u /\
+    ~ (u_rexp u < o_now (e_O E))%Z /\
+    b64std_dec (u_rver u) = Some (sha (e_C E) (half2 raw)) /\
+    ulookup (u_pid u) (s_users (h_st h')) = Some su /\
+    u_password su = pwhash (e_C E) (aget f_password (values E)) /\ u_rsel su = [] /\ u_rver su = [] /\
+    (forall p, p <> u_pid u -> ulookup p (s_users (h_st h')) = ulookup p (s_users (h_st h))).
+Proof. exact recover_accept_lemma. Qed.
+Print Assumptions c17_recover_stores_hash.
+
+(* a generated one-time password reaches storage only as base64(sha(otp)) *)
+Theorem c17_otp_stored_hashed : forall (E : env) h u r h',
+  h_cuser h = Some u -> otp_add_post E h = (r, h') ->
+  let cur := split_otps (u_otps u) in
+  ((5 <= length cur)%nat -> h_st h' = h_st h) /\
+  ((length cur < 5)%nat ->
+     h_st h' = h_st h \/
+     exists secret,
+       let x := b64std_enc (sha (e_C E) (otp_format secret)) in
+       let u' := u <| u_otps := join_otps (cur ++ [x]) |> in
+       h_st h' = h_st h <| s_users := uput (u_pid u) u' (s_users (h_st h)) |> /\
+       (length (split_otps (u_otps u')) <= S (length cur))%nat /\
+       (sha (e_C E) (otp_format secret) <> [] -> split_otps (u_otps u') = cur ++ [x])).
+Proof. exact otp_cap_lemma. Qed.
+Print Assumptions c17_otp_stored_hashed.
+
+(* UpdatePassword stores pwhash(password) and nothing else changes for anybody else *)
+Theorem c17_update_password_stores_hash : forall (C : crypto) cfg O pid pw h h',
+  keyed (h_st h) ->
+  admin C cfg O (AUpdatePassword pid pw) h = (Ok tt, h') ->
+  pw_dom pw /\
+  exists u, ulookup pid (s_users (h_st h)) = Some u /\
+    ulookup pid (s_users (h_st h')) = Some (u <| u_password := pwhash C pw |>) /\
+    rmlookup pid (s_rm (h_st h')) = [] /\
+    (forall p, p <> pid ->
+       ulookup p (s_users (h_st h')) = ulookup p (s_users (h_st h)) /\
+       rmlookup p (s_rm (h_st h')) = rmlookup p (s_rm (h_st h))).
+Proof. exact admin_update_password_lemma. Qed.
+Print Assumptions c17_update_password_stores_hash.
